@@ -12,7 +12,7 @@ func init() {
 	register("C03", checkC03)
 	describe("C03", Meta{
 		Technique: "symbolic instruction-field algebra (LAYOUT): the field lists written by each Assembler, read by each Disassembler and declared by Op_get_instruction_len are extracted from the AST as linear forms over the architecture's widths and compared, in all four execution-mode cases; field provenance gives the range-check clause",
-		Claim:     "Decides structural clauses of C03 for every opcode type: (a) the nominal length declared by Op_get_instruction_len equals opcode bits plus the widths the Assembler appends, and the Assembler pads from exactly that length up to Max_word(); (b) every slice the Disassembler reads is a field the Assembler wrote (same offset, same width); (c) every field the Assembler appends is bounded by its width by construction (register lookup loop bounded by 2^width, Process_input/output/shared bounded by the port/object count) or the accepting function rejects words whose length is not Max_word(). Symbolic in every width, so all register sizes and R/N/M/L/O at once. Necessary conditions; Process_number's parsing and asm(disasm(w)) outside the assembler's image are not decided.",
+		Claim:     "Decides structural clauses of C03 for every opcode type: (a) the nominal length declared by Op_get_instruction_len equals opcode bits plus the widths the Assembler appends, and the Assembler pads from exactly that length up to Max_word(); (b) every slice the Disassembler reads is a field the Assembler wrote (same offset, same width); (c) every field the Assembler appends is bounded by its width by construction (register lookup loop bounded by 2^width, Process_input/output/shared bounded by the port/object count) or the accepting function rejects words whose length is not Max_word(). (L3K) the Disassembler prints a register/input/output field with the name function that inverts the Assembler's parser for it. Symbolic in every width, so all register sizes and R/N/M/L/O at once. Necessary conditions; Process_number's parsing and asm(disasm(w)) outside the assembler's image are not decided.",
 		Note:      "The Assembler idioms are the six shapes found in the tree (result/partial += zeros_prefix(W, get_binary(i) | partial), result += partial, result += \"0\" pad loop); an expression outside the recognised forms yields a '?' symbol and makes the obligation undecided.",
 		DesignRef: "DESIGN.md §1.5, §2 C03",
 	})
@@ -133,6 +133,25 @@ func checkC03(r *core.Run) {
 				report(matchField(f, v.asm), "L3", fmt.Sprintf("dis%d:%s", i, f.src), prog.Pos(f.pos), "disassembler slice is an assembled field",
 					fmt.Sprintf("%s.Disassembler reads %s = %s, which is not a field its Assembler writes %s: disassembly does not give back the operands that were assembled", n, f.src, f, fieldsString(v.asm)), f.off.unknown() || f.w.unknown())
 			}
+			// L3K: the disassembler prints each field with the name function that inverts the assembler's parser
+			for i, f := range v.dis {
+				var af *lfield
+				for k := range v.asm {
+					if v.asm[k].off.eq(f.off) && v.asm[k].w.eq(f.w) {
+						af = &v.asm[k]
+					}
+				}
+				if af == nil || af.kind == "" || af.kind == "shared" || af.kind == "number" {
+					continue
+				}
+				for _, u := range f.uses {
+					if u == "number" {
+						continue // a plain number print of a port index is lossy in name only; not decided
+					}
+					report(u == af.kind, "L3K", fmt.Sprintf("dis%d:%s", i, f.src), prog.Pos(f.pos), "field printed with the matching name function",
+						fmt.Sprintf("%s.Disassembler prints the field %s with a %s name, but its Assembler parses that field as a %s name: disassembly does not give back the instruction that was assembled (and re-assembling it fails or encodes another operand)", n, f, u, af.kind), false)
+				}
+			}
 			// L6
 			for i, f := range v.asm {
 				bounded := false
@@ -166,6 +185,13 @@ func checkC03(r *core.Run) {
 		}
 	}
 	r.Count("disassembler_slices", ds)
+	kp := 0
+	for _, o := range r.Obl {
+		if o.Rule == "C03/L3K" {
+			kp++
+		}
+	}
+	r.Count("printer_kind_fields", kp)
 	_ = sort.Strings
 }
 
